@@ -10,7 +10,7 @@ import (
 // properties quantify over configurations, not over one way of writing them down: New(opts...) in the given or in the
 // reverse order, New() followed by WithOptions(opts...), or split between the two. All of these must be equivalent
 // (WithOptions is legal until the first route is added).
-var newRouterCalls int64
+var newRouterCalls, cachingOptsCalls int64
 
 func newRouter(opts ...func(*rux.Router)) *rux.Router {
 	n := int(atomic.AddInt64(&newRouterCalls, 1))
@@ -23,7 +23,7 @@ func newRouter(opts ...func(*rux.Router)) *rux.Router {
 		return rux.New()
 	}
 	o := append([]func(*rux.Router){}, opts...)
-	switch n % 4 {
+	switch (n + n/4 + n/16) % 4 {
 	case 1:
 		for i, j := 0, len(o)-1; i < j; i, j = i+1, j-1 {
 			o[i], o[j] = o[j], o[i]
@@ -44,8 +44,8 @@ func newRouter(opts ...func(*rux.Router)) *rux.Router {
 
 // cachingOpts: the ways to ask for a route cache of a given capacity
 func cachingOpts(capacity int) []func(*rux.Router) {
-	n := int(atomic.AddInt64(&newRouterCalls, 1))
-	switch n % 3 {
+	n := int(atomic.AddInt64(&cachingOptsCalls, 1)) // (own counter: the two are called in lock step, the styles must not correlate)
+	switch (n + n/3) % 3 {
 	case 1:
 		return []func(*rux.Router){rux.EnableCaching, rux.MaxNumCaches(uint16(capacity))}
 	case 2:
